@@ -23,6 +23,8 @@ pub fn run(ctx: &Ctx, rep: &mut Report) -> bool {
         "c06" => zone::run_c06(ctx, rep),
         "c10" => tsig::run_c10(ctx, rep),
         "c29" => pool::run(ctx, rep),
+        "c30" => io::run(ctx, rep),
+        "c32" => swap::run(ctx, rep),
         "c23" => zonefile::run_c23(ctx, rep),
         "c24" => zonefile::run_c24(ctx, rep),
         "c25" => zonefile::run_c25(ctx, rep),
@@ -69,3 +71,5 @@ pub fn debug_request(hexreq: &str, tcp: bool) {
 }
 pub mod zonefile;
 pub mod pool;
+pub mod swap;
+pub mod io;
